@@ -917,8 +917,16 @@ async fn run_async(c: &Case, prop: Prop) -> CaseResult {
                     .min(s.t0 + e.timeout_ms);
                 // one tick of slack for tick alignment plus the 100 ms polling granularity of this drain and timer rounding
                 let deadline = s.t0 + (((cond.saturating_sub(s.t0)) + 999) / 1000 + 1) * 1000 + 110;
+                let t0s = s.t0;
                 if tc > deadline {
-                    e.flagv(Prop::C06, "C06/graceful-late", format!("graceful stop issued at {} completed at {} ms; its condition (connections finished or timeout) held from {} ms, bound {} ms", s.t0, tc, cond, deadline));
+                    e.flagv(Prop::C06, "C06/graceful-late", format!("graceful stop issued at {} completed at {} ms; its condition (connections finished or timeout) held from {} ms, bound {} ms", t0s, tc, cond, deadline));
+                    // connections that reached the worker while it was shutting down are to be
+                    // released, not kept: if some were never handed to a service and the shutdown
+                    // was held up beyond its condition, they were kept
+                    let kept: Vec<usize> = e.all_dispatched.iter().map(|(id, _)| *id).filter(|id| w.conns.borrow()[*id].called == 0).collect();
+                    if !kept.is_empty() {
+                        e.found.push((Prop::C01, "C01/queued-not-released", format!("connections {:?} were queued at the worker when it shut down (or arrived while it did) and were neither served nor released: the graceful stop issued at {} ms, whose connections in progress had finished at {} ms, completed only at {} ms (shutdown_timeout {} ms)", kept, t0s, cond, tc, e.timeout_ms)));
+                    }
                 }
             }
         }
